@@ -125,6 +125,40 @@ theorem never_early {α : Type} (K : Kern α) (z : α) (owed : Nat → Nat) (lp 
     have := Nat.lt_ceil.mpr h2
     omega
 
+theorem offset_marg_nonneg (lp : List LStage) (he : PlanEarlyGen lp) : 0 ≤ offsetOf (lp.map tstage) + margOf lp := by
+  induction lp with
+  | nil => simp [offsetOf, margOf]
+  | cons x rest ih =>
+    have i1 := ih fun y hy => he y (by simp [hy])
+    have hb := (he x (by simp)).2
+    simp only [List.map_cons, offsetOf, margOf]
+    have := mul_nonneg hb (rate_nonneg_map rest)
+    nlinarith
+
+/-- **Never early, any phase response.**  The same bound without assuming the filters centred: it suffices that, stage
+    by stage, the last sample an output reads lies at or beyond the instant of that output (`0 ≤ b + margin`) and the
+    dft shape clauses hold (`PlanEarlyGen`, decidable, evaluated by the driver on every exported plan — also those
+    with a non-linear `phase_response`, whose `b` is positive for minimum and negative for maximum phase). -/
+theorem never_early_any_phase {α : Type} (K : Kern α) (z : α) (owed : Nat → Nat) (lp : List LStage)
+    (hwf : ∀ x ∈ lp, StageWF x.cfg x.s0) (he : PlanEarlyGen lp)
+    (ops : List (DOp α)) (F D : List α) (e : DEng α)
+    (r : DRuns K z owed (DEng.fresh z (lp.map LStage.toPlan)) ops F D e) (hfl : e.fl = false) :
+    (1 ≤ D.length → ((D.length : ℚ) - 1) * rateOf (lp.map tstage) < F.length) ∧
+    (0 < rateOf (lp.map tstage) → D.length ≤ ⌈(F.length : ℚ) / rateOf (lp.map tstage)⌉₊) := by
+  have key : 1 ≤ D.length → ((D.length : ℚ) - 1) * rateOf (lp.map tstage) < F.length := by
+    intro h1
+    have h := never_early_run_gen K z owed lp hwf he ops F D e r hfl h1
+    have o1 := offset_marg_nonneg lp he
+    linarith
+  refine ⟨key, ?_⟩
+  intro hpos
+  rcases Nat.eq_zero_or_pos D.length with h0 | h1
+  · rw [h0]; exact Nat.zero_le _
+  · have h2 : ((D.length - 1 : ℕ) : ℚ) < (F.length : ℚ) / rateOf (lp.map tstage) := by
+      rw [lt_div_iff₀ hpos, Nat.cast_sub h1]; simpa using key h1
+    have := Nat.lt_ceil.mpr h2
+    omega
+
 /-- **Never early, even with respect to the final total.**  When the pipeline's post-context is at least half an
     output period (`rate/2 ≤ 1 + offset + margin`, a decidable fact about the plan, evaluated by the driver), what has
     been delivered never exceeds `N/rate + ½`, hence never `⌊N/rate + ½⌋ = round(N/rate)` — which is the hypothesis
